@@ -42,6 +42,12 @@ def _cos_first(ctx, p, q):
         return (_sq(ctx, 2) * _sq(ctx, 3) + _sq(ctx, 2)) / 4
     if (p, q) == (5, 12):
         return (_sq(ctx, 2) * _sq(ctx, 3) - _sq(ctx, 2)) / 4
+    if q % 2 == 0 and q <= 64:
+        # half-angle: cos(x/2) = sqrt((1 + cos x)/2) for x/2 in [0, pi/2]
+        from fractions import Fraction as _F
+        f2 = _F(2 * p, q)
+        c = exact(ctx, 'cos', f2.numerator, f2.denominator)
+        return ctx.root((c + 1) / 2, 2)
     raise Unmodelled(f'cos(pi*{p}/{q}) has no modelled closed form')
 
 
